@@ -62,6 +62,12 @@ def correspondence(ctx, broken_obligations=()):
         raise
     cov.update(meta)
     cov.update(S.recase_stage(ctx, PID, KINDS))
+    # the tree-level workspace model's completion half (Model/WsTree.v: wcompletion vs the real completion service at every
+    # identifier position of every file), with the text-level clause "in a method body, not after a dot, every proposal
+    # is a parameter / local of that method or a constant" as oracle on the implementation's answers
+    from checks import c10 as _c10
+    ws = _c10.wstree_stage(ctx)
+    cov["wstree"] = {k: ws[k] for k in ws if k in ("programs", "disagreements_checked", "oracle_failures", "positions", "files", "requests")} or ws
     return cov
 
 
